@@ -28,6 +28,24 @@ CHECKS: dict[str, tuple[str, str, str, str, str]] = {
         "TLA+ denotational spec (PtSem) evaluated by TLC on index lambdas exported from the "
         "real lowering (artefact validation), exhaustive bounded enumeration",
         "DESIGN.md section 4 C02"),
+    "C03": (
+        "model_checking",
+        "The full product of the property's quantifier (17 binary operators, where, unary "
+        "functions, astype, reductions, stack/concatenate/roll/transpose/expand_dims/squeeze/"
+        "reshape/matmul/broadcast_to x operand kinds array / Python scalar / NumPy scalar x all "
+        "pairs of 13 dtypes; all shape pairs with 0..3 axes of length 0..4; every int index and "
+        "slice on axis lengths 0..6; every axis argument in [-ndim-2, ndim+2]; reshape targets "
+        "with -1) is performed on pytato and on NumPy, and each recorded call is judged by TLC "
+        "against the specification's own inference rules (PtInfer/PtCore: NEP 50 promotion, "
+        "broadcasting, CPython slice arithmetic): three voices, spec != NumPy is a machinery "
+        "failure. Exhaustive over the stated product in the thorough tier.",
+        "Trusted: TLC, the installed NumPy 2.x as the reference. pytato rejecting more than "
+        "NumPy (documented restrictions such as negative axes) constrains nothing. Multi-call "
+        "programs (every intermediate node) are covered by C01/C14's per-node comparison, not "
+        "here.",
+        "TLA+ inference rules (PtInfer) evaluated by TLC on recorded (pytato, NumPy) call "
+        "results; exhaustive bounded enumeration of the call product",
+        "DESIGN.md section 4 C03"),
     "C19": (
         "model_checking",
         "Every index lambda the public API creates for the raisable operations (both operand "
